@@ -445,14 +445,25 @@ func dominatingConds(b *ssa.BasicBlock) []cond {
 		t, f := d.Succs[0], d.Succs[1]
 		if t != f {
 			// the edge d->s dominates cur when s has d as its only predecessor and s dominates cur
-			if len(t.Preds) == 1 && t.Dominates(cur) {
+			if onlyEntry(t, d) && t.Dominates(cur) {
 				out = append(out, cond{iff.Cond, true})
-			} else if len(f.Preds) == 1 && f.Dominates(cur) {
+			} else if onlyEntry(f, d) && f.Dominates(cur) {
 				out = append(out, cond{iff.Cond, false})
 			}
 		}
 	}
 	return out
+}
+
+// onlyEntry: d is the only predecessor of s that s does not dominate (other predecessors are back
+// edges of a loop headed by s), so s can only be entered from outside through the edge d->s.
+func onlyEntry(s, d *ssa.BasicBlock) bool {
+	for _, p := range s.Preds {
+		if p != d && !s.Dominates(p) {
+			return false
+		}
+	}
+	return true
 }
 
 func calleeName(call *ssa.Call) string {
